@@ -8,8 +8,20 @@ Local Open Scope N_scope.
 Lemma alive_none : forall s, budget s = None -> alive s.
 Proof. intros s H. unfold alive. rewrite H. discriminate. Qed.
 
+(* a block above the head is not "already canonical at or below the head" *)
+Lemma not_already : forall t x (s2 : st), (forall c, info t (cur s2) = Some c -> bnum c < bnum x) ->
+  match info t (cur s2) with
+  | Some c => (bnum x <=? bnum c) && (match canon (disk_of s2) (bnum x) with Some h => h =? bid x | None => false end)
+  | None => false
+  end = false.
+Proof.
+  intros t x s2 H. destruct (info t (cur s2)) as [c|] eqn:E; auto.
+  assert (L : (bnum x <=? bnum c) = false) by (apply N.leb_gt; apply H; auto). rewrite L. reflexivity.
+Qed.
+
 (* WriteBlockWithState of a child of the head on a node that is never killed *)
 Lemma wbws_linear : forall t p x s, budget s = None -> bpar x = cur s ->
+  (forall c, info t (cur s) = Some c -> bnum c < bnum x) ->
   let r := write_block_with_state t p x s in
   snd r = ENone /\
   disk_of (fst r) =
@@ -17,7 +29,7 @@ Lemma wbws_linear : forall t p x s, budget s = None -> bpar x = cur s ->
       (apply_write (if broot x =? broot p then [] else [WState (broot x)]) (apply_write (block_batch x) (disk_of s))) /\
   cur (fst r) = bid x /\ budget (fst r) = None.
 Proof.
-  intros t p x s Hb Hp. unfold write_block_with_state, write_block.
+  intros t p x s Hb Hp Hab. unfold write_block_with_state, write_block.
   set (s1 := wr (block_batch x) s).
   assert (H1 : budget s1 = None /\ cur s1 = cur s /\ disk_of s1 = apply_write (block_batch x) (disk_of s)).
   { unfold s1. split; [apply wr_budget_none; auto|]. split; [apply wr_cur|apply wr_alive_disk; apply alive_none; auto]. }
@@ -30,7 +42,8 @@ Proof.
     - split; [apply wr_budget_none; auto|]. split; [rewrite wr_cur; auto|].
       rewrite wr_alive_disk; [rewrite D1; auto|apply alive_none; auto]. }
   destruct H2 as [B2 [C2 D2]].
-  rewrite C2, Hp, N.eqb_refl. cbv zeta. cbn [fst snd].
+  cbv zeta. rewrite (not_already t x s2) by (rewrite C2; exact Hab).
+  rewrite C2, Hp, N.eqb_refl. cbn [fst snd].
   split; [reflexivity|]. cbn [disk_of cur budget set_future set_cur].
   split; [rewrite wr_alive_disk; [rewrite D2; reflexivity|apply alive_none; auto]|].
   split; [reflexivity|apply wr_budget_none; auto].
@@ -75,6 +88,9 @@ Inductive Fam : disk -> Prop :=
 
 Lemma hb_id : bid hb = d_headB d0.
 Proof. eapply info_bid; eauto. Qed.
+
+Lemma above_hb : forall c, info t (bid hb) = Some c -> bnum c < bnum b.
+Proof. intros c H. rewrite hb_id, Hhb in H. inversion H; subst. lia. Qed.
 
 Lemma addN_idem : forall x l, addN x (addN x l) = addN x l.
 Proof.
@@ -189,7 +205,7 @@ Lemma import_on_Fam : forall f d fut lg,
   snd r = ENone /\ disk_of (fst r) = d3 /\ cur (fst r) = bid b /\ budget (fst r) = None.
 Proof.
   intros f d fut lg HF. cbv zeta. rewrite import_reduces; auto.
-  destruct (wbws_linear t hb b (mkS d (bid hb) fut lg None) eq_refl Hpar) as [W1 [W2 [W3 W4]]].
+  destruct (wbws_linear t hb b (mkS d (bid hb) fut lg None) eq_refl Hpar above_hb) as [W1 [W2 [W3 W4]]].
   destruct (write_block_with_state t hb b (mkS d (bid hb) fut lg None)) as [s' e'].
   cbn [fst snd] in W1, W2, W3, W4. subst e'. cbn [fst snd].
   split; [reflexivity|]. split; [|split; auto].
@@ -199,18 +215,19 @@ Qed.
 (* killed after any number of writes, the database is one of d0, d1, d2, d3 *)
 Lemma wbws_budget_disk : forall p x s, 
   let r := write_block_with_state t p x s in
-  bpar x = cur s ->
+  bpar x = cur s -> (forall c, info t (cur s) = Some c -> bnum c < bnum x) ->
   let a := apply_write (block_batch x) (disk_of s) in
   let c := apply_write (if broot x =? broot p then [] else [WState (broot x)]) a in
   let e := apply_write ((match btxs x with [] => [] | _ :: _ => [WRcpt (bid x)] end) ++ [] ++ map (fun tx => WLook tx (bid x)) (btxs x) ++ stage_head x) c in
   disk_of (fst r) = disk_of s \/ disk_of (fst r) = a \/ disk_of (fst r) = c \/ disk_of (fst r) = e.
 Proof.
-  intros p x s r Hp a c e. unfold r, write_block_with_state, write_block.
+  intros p x s r Hp Hab a c e. unfold r, write_block_with_state, write_block.
   set (s1 := wr (block_batch x) s).
   assert (C1 : cur s1 = cur s) by apply wr_cur.
   set (s2 := if broot x =? broot p then s1 else wr [WState (broot x)] s1).
   assert (C2 : cur s2 = cur s) by (unfold s2; destruct (broot x =? broot p); [auto|rewrite wr_cur; auto]).
-  rewrite C2, Hp, N.eqb_refl. cbv zeta. cbn [fst disk_of set_future set_cur].
+  cbv zeta. rewrite (not_already t x s2) by (rewrite C2; exact Hab).
+  rewrite C2, Hp, N.eqb_refl. cbn [fst disk_of set_future set_cur].
   destruct (wr_disk_cases (block_batch x) s) as [[E1 D1]|[A1 E1]]; fold s1 in E1.
   - (* dead from the start *)
     assert (Hd : budget s = Some O) by (destruct (alive_dec s); [contradiction|auto]).
@@ -262,6 +279,7 @@ Qed.
 
 (* if the node is alive after WriteBlockWithState of a child of its head, all three writes were applied *)
 Lemma wbws_alive : forall p x s, bpar x = cur s ->
+  (forall c, info t (cur s) = Some c -> bnum c < bnum x) ->
   let r := write_block_with_state t p x s in
   snd r = ENone /\ cur (fst r) = bid x /\
   (alive (fst r) ->
@@ -269,12 +287,13 @@ Lemma wbws_alive : forall p x s, bpar x = cur s ->
      apply_write ((match btxs x with [] => [] | _ :: _ => [WRcpt (bid x)] end) ++ [] ++ map (fun tx => WLook tx (bid x)) (btxs x) ++ stage_head x)
        (apply_write (if broot x =? broot p then [] else [WState (broot x)]) (apply_write (block_batch x) (disk_of s)))).
 Proof.
-  intros p x s Hp. unfold write_block_with_state, write_block.
+  intros p x s Hp Hab. unfold write_block_with_state, write_block.
   set (s1 := wr (block_batch x) s).
   assert (C1 : cur s1 = cur s) by apply wr_cur.
   set (s2 := if broot x =? broot p then s1 else wr [WState (broot x)] s1).
   assert (C2 : cur s2 = cur s) by (unfold s2; destruct (broot x =? broot p); [auto|rewrite wr_cur; auto]).
-  rewrite C2, Hp, N.eqb_refl. cbv zeta. cbn [fst snd]. split; [reflexivity|]. split; [reflexivity|].
+  cbv zeta. rewrite (not_already t x s2) by (rewrite C2; exact Hab).
+  rewrite C2, Hp, N.eqb_refl. cbn [fst snd]. split; [reflexivity|]. split; [reflexivity|].
   cbn [disk_of budget set_future set_cur]. unfold alive. cbn [budget set_future set_cur].
   intros Ha. fold (alive (wr ((match btxs x with [] => [] | _ :: _ => [WRcpt (bid x)] end) ++ [] ++ map (fun tx => WLook tx (bid x)) (btxs x) ++ stage_head x) s2)) in Ha.
   pose proof (wr_alive_back _ _ Ha) as A2.
@@ -365,7 +384,7 @@ Proof.
   (* where the killed import leaves the database *)
   assert (Hsk : disk_of sk = d0 \/ disk_of sk = d1 \/ disk_of sk = d2 \/ disk_of sk = d3).
   { unfold sk. rewrite import_reduces; [|apply Fam0|reflexivity].
-    pose proof (wbws_budget_disk hb b (with_budget (Some k) s0) Hpar) as Hw. cbv zeta in Hw.
+    pose proof (wbws_budget_disk hb b (with_budget (Some k) s0) Hpar above_hb) as Hw. cbv zeta in Hw.
     destruct (write_block_with_state t hb b (with_budget (Some k) s0)) as [s' e']. cbn [fst] in Hw.
     assert (Es : disk_of (fst (match e' with ENone => (s', ENone) | _ => (s', e') end)) = disk_of s') by (destruct e'; reflexivity).
     rewrite Es. exact Hw. }
